@@ -30,7 +30,9 @@ def check(run: Run) -> None:
         run.rule(f"C09.{i}", d)
     ctx = TermCtx(m, max_depth=1, opaque={"remap_from_lambda", "remap_by_types", "clone_with_new_ast", "function_call", "parse_as_ast", "_local_simplification", "lookup_type", "_fill_in_default_arguments", "scan_for_metadata", "fixup_ast_from_modifications"})
     outer = m.find_func("remap_by_types", in_module=mod)
-    classes = [c for c in m.classes.values() if c.parent_func is outer and m.is_transformer(c)]
+    from ..lib import used_visitor
+
+    classes = [used_visitor(m, ctx, outer, True)]
     if len(classes) != 1:
         raise AnalysisError("remap_by_types no longer contains one transformer")
     tt = classes[0]
@@ -142,9 +144,25 @@ def check(run: Run) -> None:
             ok = all(any(a == k or a in unphi_terms(k) for k in keys) for a in unphi_terms(rtm))
             run.check(ok, "C09.R2" if name != "process_method_call" else "C09.R1", fi, s_, f"{name} records the type of the node it returns", f"{name} returns {show(rtm)[:60]} without recording its type (recorded: {[show(k)[:30] for k in keys]}): a call chained on the rewritten call site is followed as Any and its class / method callbacks silently do not fire", "self._found_types[r_node] = return_type")
 
+    # ---------------- R7: registration replaces an earlier registration of the same name (last one wins)
+    run.rule("C09.R7", "register_func_adl_function stores _global_functions[name] = info (a later registration replaces an earlier one); nested lambdas are followed with their own parameter's type")
+    rf = m.find_func("register_func_adl_function", in_module=mod)
+    stores_ = [n for n in own_nodes(rf) if isinstance(n, ast.Assign) and isinstance(n.targets[0], ast.Subscript) and ast.unparse(n.targets[0].value) == "_global_functions"]
+    weak = [c for c in calls_in(rf) if isinstance(c.func, ast.Attribute) and c.func.attr in ("setdefault",) and ast.unparse(c.func.value) == "_global_functions"]
+    fr = ctx.analysis(rf)
+    ok = len(stores_) == 1 and not weak and fr.cfg.postdominates(fr.cfg.node_of(stores_[0]), fr.cfg.entry)
+    run.check(ok, "C09.R7", rf, stores_[0] if stores_ else (stmt_of(weak[0]) if weak else rf.node), "registration overwrites unconditionally", "a function registered again under the same name (or a processor attached to a pre-registered name such as abs/len) does not replace the earlier entry: the new processor never fires and a stale one does", "_global_functions[info.name] = info")
+    if stores_:
+        v = strip_sites(fr.term_of(stores_[0].value))
+        ok_v = v[0] == "app" and len(v[2]) == 3 and v[2][1] == ("param", rf.pos_params[0]) and v[2][2] == ("param", rf.pos_params[1])
+        run.check(ok_v, "C09.R7", rf, stores_[0], "the entry holds the function and its processor", f"the registry entry is {show(v)[:100]}")
+    from .c07 import check_env_merge
+
+    check_env_merge(run, m, "C09.R7")
+
     # ---------------- R3
     sm = m.find_func("scan_for_metadata", in_module="func_adl.util_ast")
-    finders = [c for c in m.classes.values() if c.parent_func is sm and m.is_visitor(c)]
+    finders = [used_visitor(m, ctx, sm)]
     if len(finders) != 1 or "visit_Call" not in finders[0].methods:
         raise AnalysisError("scan_for_metadata no longer contains one visitor with visit_Call")
     fvisit = finders[0].methods["visit_Call"]
